@@ -124,6 +124,7 @@ type v4Cluster struct {
 	log    []v4Entry
 	intent string
 	stuck  string
+	queued bool
 }
 
 var v4C *v4Cluster
@@ -637,6 +638,28 @@ func (c *v4Cluster) unadopted() int {
 	return n
 }
 
+// queuedAt names a server whose propagate subscription holds a request that its (busy) handler has not taken yet
+func (c *v4Cluster) queuedAt() string {
+	for _, id := range v4IDs {
+		sub := c.srv[id].leaderSub
+		if sub == nil {
+			continue
+		}
+		busy := false
+		c.mu.Lock()
+		for _, in := range c.insts {
+			if in.par != 0 && in.at == id && in.pc != "done" {
+				busy = true
+			}
+		}
+		c.mu.Unlock()
+		if n, _, err := sub.Pending(); err == nil && n > 0 && busy {
+			return id
+		}
+	}
+	return ""
+}
+
 func (c *v4Cluster) nsub() int {
 	n := 0
 	for _, id := range v4IDs {
@@ -658,8 +681,19 @@ func (c *v4Cluster) afterDispatch(in *v4Inst) string {
 		if c.instPark(in, "raft.apply.enter") != nil {
 			return true
 		}
-		return nsub > 0 && c.unadopted() >= 1
+		if nsub > 0 && c.unadopted() >= 1 {
+			return true
+		}
+		return c.queuedAt() != ""
 	})
+	if q := c.queuedAt(); q != "" && c.unadopted() == 0 && c.instPark(in, "raft.apply.enter") == nil {
+		// NATS handed the request to a subscriber whose handler is busy with an earlier request: it waits in that
+		// subscription (the specification lets one request at a time through to a subscriber; not judged further)
+		c.queued = true
+		c.stuck = "queued behind the request in the handler of " + q
+		c.setPc(in, "fwd")
+		return q
+	}
 	if pc, _ := c.pcOf(in); pc == "done" {
 		return "-"
 	}
@@ -716,7 +750,7 @@ func (c *v4Cluster) step(step map[string]interface{}) (ev v4Event) {
 			args[k] = v
 		}
 	}
-	ev = v4Event{A: a, Args: args, Obs: map[string]interface{}{"crash": "", "stuck": ""}}
+	ev = v4Event{A: a, Args: args, Obs: map[string]interface{}{"crash": "", "stuck": "", "queued": false}}
 	skip := func(why string) v4Event {
 		ev.A = "Skip"
 		ev.Args = map[string]interface{}{"of": a, "why": why}
@@ -948,6 +982,7 @@ func (c *v4Cluster) step(step map[string]interface{}) (ev v4Event) {
 	c.settle()
 	ev.St = c.state()
 	ev.Obs["stuck"] = c.stuck
+	ev.Obs["queued"] = c.queued
 	return ev
 }
 
@@ -1066,7 +1101,7 @@ func (c *v4Cluster) cleanup() {
 
 func v4Behaviour(c *v4Cluster, b vBehaviour) []v4Event {
 	c.open(b)
-	open := v4Event{T: b.ID, A: "Open", Args: map[string]interface{}{}, St: c.state(), Obs: map[string]interface{}{"crash": "", "stuck": ""}}
+	open := v4Event{T: b.ID, A: "Open", Args: map[string]interface{}{}, St: c.state(), Obs: map[string]interface{}{"crash": "", "stuck": "", "queued": false}}
 	evs := []v4Event{open}
 	for _, step := range b.Steps {
 		c.noteIntent(b.ID, evs, step)
@@ -1079,6 +1114,7 @@ func v4Behaviour(c *v4Cluster, b vBehaviour) []v4Event {
 	}
 	stuck := c.stuck
 	c.stuck = ""
+	c.queued = false
 	// everything in flight runs to its end: the final state is judged as well
 	c.noteIntent(b.ID, evs, map[string]interface{}{"a": "Drain"})
 	c.mu.Lock()
@@ -1102,7 +1138,7 @@ func v4Behaviour(c *v4Cluster, b vBehaviour) []v4Event {
 	for _, id := range v4IDs {
 		c.acqw[id] = -1
 	}
-	fin := v4Event{T: b.ID, A: "Drain", Args: map[string]interface{}{}, St: c.state(), Obs: map[string]interface{}{"crash": "", "stuck": ""}}
+	fin := v4Event{T: b.ID, A: "Drain", Args: map[string]interface{}{}, St: c.state(), Obs: map[string]interface{}{"crash": "", "stuck": "", "queued": false}}
 	evs = append(evs, fin)
 	c.noteIntent(b.ID, nil, map[string]interface{}{"a": "cleanup"})
 	c.cleanup()
